@@ -10,10 +10,21 @@ set_option linter.unusedVariables false
 
 /-! ### plain expressions -/
 
+/-- a literal `int` -/
+def isIntLit : SExp → Bool
+  | .const (.int _) => true
+  | _ => false
+
+/-- a literal `int` or `bool`: what a loop variable is replaced by -/
+def isIB : SExp → Bool
+  | .const (.int _) => true
+  | .const (.bool _) => true
+  | _ => false
+
 mutual
 /-- expressions on which `ASTRewriter.visit` is the identity and whose image under `toP` is in the syntax of
 `Sem.semW`: user variables, bool / int constants, `not`, `~`, `and` / `or`, if-expressions, comparisons,
-the binary operators other than `**` -/
+the binary operators other than `**` (shifts by a literal amount: `Sem.semW` reads the amount from the syntax) -/
 def plainE : SExp → Bool
   | .name n => userName n
   | .const (.bool _) => true
@@ -23,7 +34,8 @@ def plainE : SExp → Bool
   | .unop op e => (op == "Not" || op == "Invert") && plainE e
   | .ite c t e => plainE c && plainE t && plainE e
   | .cmp _ l r => plainE l && plainE r
-  | .bin op l r => (binName op).isSome && plainE l && plainE r
+  | .bin op l r => (binName op).isSome && plainE l && plainE r &&
+      (if op == "LShift" || op == "RShift" then isIntLit r else true)
   | _ => false
 def plainEs : List SExp → Bool
   | [] => true
@@ -58,7 +70,7 @@ theorem visitE_plain : ∀ e : SExp, plainE e = true → visitE e = .ok e
     simp [visitE, visitE_plain l h.1, visitE_plain r h.2, bind, Except.bind, pure, Except.pure]
   | .bin op l r, h => by
     simp only [plainE, Bool.and_eq_true] at h
-    simp [visitE, binName_ne_pow h.1.1, visitE_plain l h.1.2, visitE_plain r h.2, bind, Except.bind, pure,
+    simp [visitE, binName_ne_pow h.1.1.1, visitE_plain l h.1.1.2, visitE_plain r h.1.2, bind, Except.bind, pure,
       Except.pure]
   | .sub _ _, h => by simp [plainE] at h
   | .tuple _, h => by simp [plainE] at h
@@ -114,8 +126,8 @@ theorem mentions_plain (n : String) : ∀ e : SExp, plainE e = true → mentions
     | some o =>
       simp only [toP, hb, mentions, Bool.or_eq_true] at hm
       rcases hm with hm | hm
-      · exact mentions_plain n l h.1.2 hm
-      · exact mentions_plain n r h.2 hm
+      · exact mentions_plain n l h.1.1.2 hm
+      · exact mentions_plain n r h.1.2 hm
   | .sub _ _, h, _ => by simp [plainE] at h
   | .tuple _, h, _ => by simp [plainE] at h
   | .list _, h, _ => by simp [plainE] at h
@@ -146,19 +158,245 @@ def hasIfs : List SStmt → Bool
 end
 
 mutual
-/-- the statements of the preservation theorem for `if`: assignments and augmented assignments of plain
-expressions to user variables, `if` / `elif` / `else` of such statements nested to any depth **through the
-else branches** (an `if` inside the body of an `if` is rewritten into a list that reads `_iftargN` before it
-is defined: the translator refuses it) -/
+/-- the statement contains a `for` -/
+def hasFor : SStmt → Bool
+  | .for_ _ _ _ _ => true
+  | .ifs _ b e => hasFors b || hasFors e
+  | _ => false
+def hasFors : List SStmt → Bool
+  | [] => false
+  | s :: ss => hasFor s || hasFors ss
+end
+
+def allIntLit : List SExp → Bool
+  | [] => true
+  | e :: es => isIntLit e && allIntLit es
+
+def allIB : List SExp → Bool
+  | [] => true
+  | e :: es => isIB e && allIB es
+
+/-- the iterators of the preservation theorem: `range` of one to three `int` literals, a tuple or a list of
+`int` / `bool` literals -/
+def closedIter : SExp → Bool
+  | .call fn args => fn == "range" && allIntLit args
+  | .tuple es => allIB es
+  | .list es => allIB es
+  | _ => false
+
+mutual
+/-- the statements of the preservation theorem: assignments and augmented assignments of plain expressions
+to user variables; `if` / `elif` / `else` of such statements nested to any depth **through the else
+branches** (an `if` inside the body of an `if` is rewritten into a list that reads `_iftargN` before it is
+defined: the translator refuses it), without loops inside; `for v in <closedIter>` over such statements, loops
+and `if`s nested inside to any depth, without `else` -/
 def okS : SStmt → Bool
   | .assign [.name t] e => userName t && plainE e
-  | .aug (.name t) op e => userName t && (binName op).isSome && plainE e
-  | .ifs c b e => plainE c && okSs b && !hasIfs b && okSs e
+  | .aug (.name t) op e => userName t && plainE (.bin op (.name t) e)
+  | .ifs c b e => plainE c && okSs b && !hasIfs b && okSs e && !hasFors b && !hasFors e
+  | .for_ (.name v) it b [] => userName v && closedIter it && okSs b
   | _ => false
 def okSs : List SStmt → Bool
   | [] => true
   | s :: ss => okS s && okSs ss
 end
+
+/-! ### the replacement of loop variables -/
+
+/-- the loop variables replaced so far hold, in the source environment, the constants they are replaced by -/
+def ThetaOK (θ : Subst) (σ : SEnv) : Prop :=
+  ∀ p ∈ θ, userName p.1 = true ∧ isIB p.2 = true ∧ σ p.1 = semW σ (toP p.2)
+
+theorem isIB_plain {c : SExp} (h : isIB c = true) : plainE c = true := by
+  cases c with
+  | const k => cases k <;> simp [isIB, plainE] at h ⊢
+  | _ => simp [isIB] at h
+
+theorem subst1_isIntLit (v : String) (c : SExp) (e : SExp) (h : isIntLit e = true) : subst1 v c e = e := by
+  cases e with
+  | const k => rfl
+  | _ => simp [isIntLit] at h
+
+theorem semW_toP_IB (σ σ' : SEnv) {c : SExp} (h : isIB c = true) : semW σ (toP c) = semW σ' (toP c) := by
+  cases c with
+  | const k => cases k <;> simp [isIB, toP, semW] at h ⊢
+  | _ => simp [isIB] at h
+
+mutual
+theorem subst1_plain (v : String) (c : SExp) (hc : isIB c = true) :
+    ∀ e : SExp, plainE e = true → plainE (subst1 v c e) = true
+  | .name n, h => by
+    simp only [subst1]
+    split
+    · exact isIB_plain hc
+    · exact h
+  | .const k, h => h
+  | .boolop a vs, h => by
+    simp only [plainE] at h
+    simp only [subst1, plainE]
+    exact subst1s_plain v c hc vs h
+  | .unop op e, h => by
+    simp only [plainE, Bool.and_eq_true] at h
+    simp only [subst1, plainE, Bool.and_eq_true]
+    exact ⟨h.1, subst1_plain v c hc e h.2⟩
+  | .ite a b d, h => by
+    simp only [plainE, Bool.and_eq_true] at h
+    simp only [subst1, plainE, Bool.and_eq_true]
+    exact ⟨⟨subst1_plain v c hc a h.1.1, subst1_plain v c hc b h.1.2⟩, subst1_plain v c hc d h.2⟩
+  | .cmp op l r, h => by
+    simp only [plainE, Bool.and_eq_true] at h
+    simp only [subst1, plainE, Bool.and_eq_true]
+    exact ⟨subst1_plain v c hc l h.1, subst1_plain v c hc r h.2⟩
+  | .bin op l r, h => by
+    simp only [plainE, Bool.and_eq_true] at h
+    simp only [subst1, plainE, Bool.and_eq_true]
+    refine ⟨⟨⟨h.1.1.1, subst1_plain v c hc l h.1.1.2⟩, subst1_plain v c hc r h.1.2⟩, ?_⟩
+    have h4 := h.2
+    split at h4
+    · rename_i hs
+      simp only [hs, if_true]
+      rw [subst1_isIntLit v c r h4]; exact h4
+    · rename_i hs
+      simp [hs]
+  | .sub _ _, h => by simp [plainE] at h
+  | .tuple _, h => by simp [plainE] at h
+  | .list _, h => by simp [plainE] at h
+  | .call _ _, h => by simp [plainE] at h
+  | .other _, h => by simp [plainE] at h
+theorem subst1s_plain (v : String) (c : SExp) (hc : isIB c = true) :
+    ∀ es : List SExp, plainEs es = true → plainEs (subst1s v c es) = true
+  | [], _ => rfl
+  | e :: es, h => by
+    simp only [plainEs, Bool.and_eq_true] at h
+    simp only [subst1s, plainEs, Bool.and_eq_true]
+    exact ⟨subst1_plain v c hc e h.1, subst1s_plain v c hc es h.2⟩
+end
+
+theorem binName_shift {op o : String} (h : binName op = some o) :
+    (o == "lshift" || o == "rshift") = (op == "LShift" || op == "RShift") := by
+  unfold binName at h
+  split at h <;> simp at h <;> subst h <;> decide
+
+mutual
+/-- replacing a variable by the constant it holds does not change the value -/
+theorem subst1_sem (σ : SEnv) (v : String) (c : SExp) (hc : isIB c = true) (hσ : σ v = semW σ (toP c)) :
+    ∀ e : SExp, plainE e = true → semW σ (toP (subst1 v c e)) = semW σ (toP e)
+  | .name n, _ => by
+    simp only [subst1]
+    split
+    · rename_i hn
+      have : n = v := by simpa using hn
+      subst this
+      simp only [toP, semW]
+      exact hσ.symm
+    · rfl
+  | .const k, _ => rfl
+  | .boolop a vs, h => by
+    simp only [plainE] at h
+    simp only [subst1, toP, semW, subst1s_sem σ v c hc hσ vs h]
+  | .unop op e, h => by
+    simp only [plainE, Bool.and_eq_true, Bool.or_eq_true, beq_iff_eq] at h
+    rcases h.1 with rfl | rfl
+    · simp only [subst1, toP, beq_self_eq_true, if_true, semW, subst1_sem σ v c hc hσ e h.2]
+    · have hne : ("Invert" == "Not") = false := by decide
+      simp only [subst1, toP, hne, Bool.false_eq_true, if_false, beq_self_eq_true, if_true, semW,
+        subst1_sem σ v c hc hσ e h.2]
+  | .ite a b d, h => by
+    simp only [plainE, Bool.and_eq_true] at h
+    simp only [subst1, toP, semW, subst1_sem σ v c hc hσ a h.1.1, subst1_sem σ v c hc hσ b h.1.2,
+      subst1_sem σ v c hc hσ d h.2]
+  | .cmp op l r, h => by
+    simp only [plainE, Bool.and_eq_true] at h
+    simp only [subst1, toP, semW, subst1_sem σ v c hc hσ l h.1, subst1_sem σ v c hc hσ r h.2]
+  | .bin op l r, h => by
+    simp only [plainE, Bool.and_eq_true] at h
+    cases hb : binName op with
+    | none => simp [hb] at h
+    | some o =>
+      have hl := subst1_sem σ v c hc hσ l h.1.1.2
+      have hr := subst1_sem σ v c hc hσ r h.1.2
+      have h4 := h.2
+      by_cases hs : (op == "LShift" || op == "RShift") = true
+      · simp only [hs, if_true] at h4
+        simp only [subst1, toP, hb, subst1_isIntLit v c r h4, semW, hl]
+      · simp only [Bool.not_eq_true] at hs
+        have hs' := binName_shift hb
+        rw [hs] at hs'
+        simp only [subst1, toP, hb, semW, hl, hr, hs', Bool.false_eq_true, if_false]
+  | .sub _ _, h => by simp [plainE] at h
+  | .tuple _, h => by simp [plainE] at h
+  | .list _, h => by simp [plainE] at h
+  | .call _ _, h => by simp [plainE] at h
+  | .other _, h => by simp [plainE] at h
+theorem subst1s_sem (σ : SEnv) (v : String) (c : SExp) (hc : isIB c = true) (hσ : σ v = semW σ (toP c)) :
+    ∀ es : List SExp, plainEs es = true → semWList σ (toPs (subst1s v c es)) = semWList σ (toPs es)
+  | [], _ => rfl
+  | e :: es, h => by
+    simp only [plainEs, Bool.and_eq_true] at h
+    simp only [subst1s, toPs, semWList, subst1_sem σ v c hc hσ e h.1, subst1s_sem σ v c hc hσ es h.2]
+end
+
+theorem substE_cons (p : String × SExp) (θ : Subst) (e : SExp) : substE (p :: θ) e = substE θ (subst1 p.1 p.2 e) := rfl
+
+theorem substE_plain : ∀ (θ : Subst) (σ : SEnv), ThetaOK θ σ → ∀ e, plainE e = true → plainE (substE θ e) = true
+  | [], _, _, _, h => h
+  | p :: θ, σ, hθ, e, h => by
+    rw [substE_cons]
+    exact substE_plain θ σ (fun q hq => hθ q (List.mem_cons_of_mem _ hq)) _
+      (subst1_plain p.1 p.2 (hθ p (List.mem_cons_self)).2.1 e h)
+
+theorem substE_sem : ∀ (θ : Subst) (σ : SEnv), ThetaOK θ σ → ∀ e, plainE e = true →
+    semW σ (toP (substE θ e)) = semW σ (toP e)
+  | [], _, _, _, _ => rfl
+  | p :: θ, σ, hθ, e, h => by
+    have hp := hθ p (List.mem_cons_self)
+    rw [substE_cons, substE_sem θ σ (fun q hq => hθ q (List.mem_cons_of_mem _ hq)) _
+      (subst1_plain p.1 p.2 hp.2.1 e h)]
+    exact subst1_sem σ p.1 p.2 hp.2.1 hp.2.2 e h
+
+/-- a target under the replacements: itself when it is not a loop variable, a constant otherwise -/
+theorem substE_name : ∀ (θ : Subst), (∀ p ∈ θ, isIB p.2 = true) → ∀ t : String,
+    (substE θ (.name t) = .name t ∧ ∀ p ∈ θ, p.1 ≠ t) ∨ ∃ k, substE θ (.name t) = .const k
+  | [], _, t => Or.inl ⟨rfl, fun p hp => by simp at hp⟩
+  | p :: θ, h, t => by
+    rw [substE_cons]
+    by_cases hn : t = p.1
+    · right
+      have hc := h p (List.mem_cons_self)
+      simp only [subst1, hn, beq_self_eq_true, if_true]
+      cases hp2 : p.2 with
+      | const k =>
+        refine ⟨k, ?_⟩
+        clear hc hn
+        induction θ with
+        | nil => rfl
+        | cons q θ ih => rw [substE_cons]; simp only [subst1]; exact ih (fun r hr => by
+            simp only [List.mem_cons] at hr
+            rcases hr with rfl | hr
+            · exact h _ (List.mem_cons_self)
+            · exact h r (List.mem_cons_of_mem _ (List.mem_cons_of_mem _ hr)))
+      | _ => rw [hp2] at hc; simp [isIB] at hc
+    · have : subst1 p.1 p.2 (.name t) = .name t := by
+        simp only [subst1]
+        have : (t == p.1) = false := by simpa using hn
+        simp [this]
+      rw [this]
+      rcases substE_name θ (fun q hq => h q (List.mem_cons_of_mem _ hq)) t with ⟨h1, h2⟩ | h1
+      · left
+        refine ⟨h1, fun q hq => ?_⟩
+        simp only [List.mem_cons] at hq
+        rcases hq with rfl | hq
+        · exact fun hh => hn hh.symm
+        · exact h2 q hq
+      · exact Or.inr h1
+
+theorem ThetaOK.set {θ : Subst} {σ : SEnv} (h : ThetaOK θ σ) (t : String) (x : SVal) (ht : ∀ p ∈ θ, p.1 ≠ t) :
+    ThetaOK θ (σ.set t x) := by
+  intro p hp
+  obtain ⟨h1, h2, h3⟩ := h p hp
+  refine ⟨h1, h2, ?_⟩
+  rw [← semW_toP_IB σ _ h2, ← h3]
+  simp [SEnv.set, ht p hp]
 
 /-! ### the environment of the rewriter never learns a `__` name -/
 
@@ -286,13 +524,11 @@ theorem visitAssign_inv (t : String) (v : SExp) (ht : userName t = true) (hv : p
     exact ⟨hk1, hg.1, Or.inl rfl⟩
 
 /-- `visit_AugAssign` on `t op= v` -/
-theorem visitAug_inv (t op : String) (v : SExp) (ht : userName t = true) (hop : (binName op).isSome = true)
-    (hv : plainE v = true) (st st' : RSt) (L : List SStmt)
+theorem visitAug_inv (t op : String) (v : SExp) (hp : plainE (.bin op (.name t) v) = true) (st st' : RSt) (L : List SStmt)
     (h : (visitAug (.name t) op v).run st = .ok (L, st')) :
     SameCore st st' ∧
       L = [.assign [.name ("__" ++ t)] (.bin op (.name t) v), .assign [.name t] (.name ("__" ++ t))] := by
   unfold visitAug at h
-  have hp : plainE (.bin op (.name t) v) = true := by simp [plainE, hop, ht, hv]
   simp only [rm_bind_ok, rm_pure_ok, rm_liftX_ok, visitE_plain _ hp, Except.ok.injEq] at h
   obtain ⟨_, _, ⟨rfl, rfl⟩, _, s1, hn, _, _, ⟨rfl, rfl⟩, rfl, rfl⟩ := h
   exact ⟨note_core _ _ _ _ hn, rfl⟩
